@@ -52,7 +52,7 @@ func (g *GuardEngine) unitFor(fd *FuncDecl, n ast.Node) *Unit {
 
 func (r *Run) TagSites(scope Scope) []*TagSite {
 	var out []*TagSite
-	for _, fd := range r.Prog.FuncsIn(scope) {
+	for _, fd := range r.Prog.AllFuncsIn(scope) {
 		info := fd.Pkg.TypesInfo
 		ast.Inspect(fd.Decl.Body, func(n ast.Node) bool {
 			call, ok := n.(*ast.CallExpr)
